@@ -307,6 +307,53 @@ func runAggLarge(raw json.RawMessage, seed int64) (res Result) {
 			}
 		}
 	}
+	// per-message grouping (more distinct keys than messages) with g = 8..17 messages of which ONE is signed by a key and its
+	// opposite: that group contributes the identity to the product, wherever it falls in the internal order
+	for _, g := range []int{8, 9, 10, 16, 17} {
+		for rep := 0; rep < 3; rep++ {
+			var pks []crypto.PublicKey
+			var msgs [][]byte
+			var hs []hash.Hasher
+			sum := ref.G1Inf
+			cancel := w.Rng.Intn(g)
+			for i := 0; i < g; i++ {
+				mname := fmt.Sprintf("cg-msg-%d-%d", rep, i)
+				if i == cancel {
+					sc := w.Scalar(fmt.Sprintf("cg-c-%d", rep))
+					for _, v := range []*big.Int{sc, new(big.Int).Sub(ref.R, sc)} {
+						pks = append(pks, w.SK(v).PublicKey())
+						msgs = append(msgs, w.Msg(mname).Data)
+						hs = append(hs, w.Hasher("kmac", mname))
+					}
+					continue
+				}
+				for j := 0; j < 2; j++ {
+					sc := w.Scalar(fmt.Sprintf("cg-k-%d-%d-%d", rep, i, j))
+					pks = append(pks, w.SK(sc).PublicKey())
+					msgs = append(msgs, w.Msg(mname).Data)
+					hs = append(hs, w.Hasher("kmac", mname))
+					sum = sum.Add(w.HashPoint("kmac", mname).Mul(sc))
+				}
+			}
+			perm := w.Rng.Perm(len(pks))
+			p2, m2, h2 := make([]crypto.PublicKey, len(pks)), make([][]byte, len(pks)), make([]hash.Hasher, len(pks))
+			for i, j := range perm {
+				p2[i], m2[i], h2[i] = pks[j], msgs[j], hs[j]
+			}
+			ok, err := crypto.VerifyBLSSignatureManyMessages(p2, sum.Compress(), m2, h2)
+			res.Evals++
+			if !ok || err != nil {
+				res.Violations = append(res.Violations, Violation{"C02", "PairingProductDefinition",
+					fmt.Sprintf("%d messages with two keys each, one of them signed by a key and its opposite: the reference aggregate is rejected (%v, %v) [seed %d]", g, ok, err, seed)})
+			}
+			ok, err = crypto.VerifyBLSSignatureManyMessages(p2, sum.Add(w.D()).Compress(), m2, h2)
+			res.Evals++
+			if ok || err != nil {
+				res.Violations = append(res.Violations, Violation{"C02", "PairingProductDefinition",
+					fmt.Sprintf("%d messages with two keys each, one of them signed by a key and its opposite: aggregate + D accepted (%v, %v) [seed %d]", g, ok, err, seed)})
+			}
+		}
+	}
 	// one FAT group next to two thin ones: one key with c messages (per-key grouping) / one message with c keys (per-message
 	// grouping), c around the multiples of 64 where an implementation may cut its work into batches
 	fat := []int{63, 64, 65, 66, 127, 128, 129, 130, 191, 192, 193, 257}
